@@ -84,6 +84,15 @@ void harness(void)
 #ifdef SETTING_PRECOND
   SETTING_PRECOND
 #endif
+#ifdef NOT_ROUNDS
+  /* case split: this query covers settings whose tail does not begin with
+     "rounds=" (the rounds= spellings have their own query with that prefix fixed) */
+  {
+    const char *t = setting + PLEN;
+    __CPROVER_assume(!(in_slen >= 7 && t[0] == 'r' && t[1] == 'o' && t[2] == 'u' && t[3] == 'n' &&
+                       t[4] == 'd' && t[5] == 's' && t[6] == '='));
+  }
+#endif
 
   /* arbitrary prior contents (previous result, garbage), except that do_crypt's
      callers have already stored the failure token in output */
